@@ -75,7 +75,7 @@ def gen_case(rng):
 	segs = tuple(s for s in segs if s not in (u'.', u'..'))
 	query = tuple((word(rng, SEG_ALPHABETS), word(rng, SEG_ALPHABETS, 0, 6)) for _ in range(rng.randrange(0, 4)))
 	status = rng.choice((200, 200, 201, 202, 206, 301, 302, 400, 401, 404, 418, 500, 503, rng.randrange(200, 600)))
-	reason = None if rng.random() < 0.7 else rng.choice(('OK', 'Very Well', 'Nope', 'x', 'Not  Found', 'a\tb', 'Three   spaces'))
+	reason = None if rng.random() < 0.7 else rng.choice(('OK', 'Very Well', 'Nope', 'x', 'Not  Found', 'a\tb', 'Three   spaces', ''))
 	if reason is None and not known_status(status):
 		reason = 'Custom'      # "every status with a reason phrase": a code the library has no phrase for gets one from the caller
 	version = rng.choice(((1, 1), (1, 1), (1, 0)))
@@ -90,7 +90,7 @@ def gen_case(rng):
 	if kind == 'request' and rng.random() < 0.15:
 		fields.append((u'Date', rng.choice((u'Sun, 06 Nov 1994 08:49:37 GMT', u'Thu, 01 Jan 1970 00:00:00 GMT'))))      # a request keeps the Date its sender gave it (a response is stamped by the composer)
 	source = rng.choice(SOURCES)
-	n = rng.choice((0, 1, 5, 300, 4096, 4097, 9000))
+	n = rng.choice((0, 1, 5, 300, 4096, 4097, 9000) * 4 + (65536, 131072))      # (pieces of exactly k * 64 KiB among them)
 	if source in ('text', 'textlist'):
 		data = u''.join(rng.choice(u'ab é€\n') for _ in range(n)).encode('utf-8')
 	else:
@@ -101,6 +101,9 @@ def gen_case(rng):
 			while h < len(data) and (data[h] & 0xC0) == 0x80:
 				h += 1
 		pieces = (data[:h], data[h:])
+		if n >= 65536 and source != 'textlist' and rng.random() < 0.7:
+			pieces = (data[:65536], data[65536:]) if len(data) > 65536 and rng.random() < 0.5 else (data,)      # one piece of exactly k * 64 KiB
+			pieces = tuple(x for x in pieces if x)
 	else:
 		pieces = (data,) if source != 'none' else ()
 	if kind == 'request' and method == 'TRACE':
